@@ -242,7 +242,10 @@ def prop_cli(case, rec):
         pws += [p] * c
     path = os.path.join(_dir(), 'train.txt')
     trainer.write_training_file(path, pws, enc)
-    out = os.path.join(root, 'Rules', 'T')
+    from .. import cli
+    ctx = case.get('context') or cli.DEFAULT
+    rule = ctx.get('rule', 'T')
+    out = os.path.join(root, 'Rules', rule)
     r = guard(case, trainer.train, path, out, encoding=enc, coverage=case['coverage'], ngram=case['ngram'], alphabet_size=100)
     if not r.ok:
         rec.skip('trainer_did_not_complete')
@@ -255,10 +258,10 @@ def prop_cli(case, rec):
     outp = os.path.join(_dir(), 'score_out.txt')
     if os.path.exists(outp):
         os.remove(outp)
-    env = dict(os.environ, PYTHONUTF8='1', LC_ALL='C.UTF-8', PYTHONDONTWRITEBYTECODE='1', PYTHONWARNINGS='ignore')
     try:
-        p = subprocess.run([sys.executable, os.path.join(root, 'password_scorer.py'), '-r', 'T', '-i', inp, '-o', outp], stdin=subprocess.DEVNULL,
-                           capture_output=True, text=True, env=env, cwd=root, timeout=600)
+        # started from the tool's folder, from somewhere else, or from a folder that holds ANOTHER ruleset under the same name
+        opts = ['--rule', rule, '--input', inp, '--output', outp] if case.get('long_options') else ['-r', rule, '-i', inp, '-o', outp]
+        p = cli.run(root, 'password_scorer.py', opts, ctx, timeout=600, text=True)
     except subprocess.TimeoutExpired:
         rec.skip('cli_timeout_inconclusive')
         return
@@ -268,15 +271,17 @@ def prop_cli(case, rec):
     if got and got[-1] == '':
         got.pop()
     want = ['\t'.join(str(x) for x in guard(case, sc.parse, c)) for c in cands]
-    rec.case({'candidates': len(cands), 'sample': want[:3]}, len(cands) >= 5, ['cli_scorer'], key=[case['entries'], case['coverage'], case['ngram'], 'cli'])
+    rec.case({'candidates': len(cands), 'sample': want[:3], 'context': ctx}, len(cands) >= 5, ['cli_scorer'] + cli.label(ctx), key=[case['entries'], case['coverage'], case['ngram'], 'cli', ctx])
     if got != want:
         k = next((i for i, (a, b) in enumerate(zip(got, want)) if a != b), min(len(got), len(want)))
         raise Violation('cli_differs_from_library', f'password_scorer.py output line {k}: {got[k:k + 2]} vs library {want[k:k + 2]} ({len(got)} vs {len(want)} lines)', case)
 
 
 def run_cli(rec, seed, shard, nshards, tier):
-    n = {'quick': 3, 'thorough': 40}[tier]
-    core.hyp_run(rec, prop_cli, cases(), n, seed, shrink=(tier == 'thorough'))
+    n = {'quick': 4, 'thorough': 40}[tier]
+    from .. import cli
+    strat = st.tuples(cases(), cli.contexts(), st.booleans()).map(lambda t: dict(t[0], context=t[1], long_options=t[2]))
+    core.hyp_run(rec, prop_cli, strat, n, seed, shrink=(tier == 'thorough'))
 
 
 F13_CASE = {'entries': [['Kpassword', 3], ['password1', 6], ['Monkey12', 5], ['iloveyou', 5], ['K', 2], ['\u01c6emal1', 3]], 'encoding': 'utf-8',
